@@ -149,13 +149,28 @@ def c_res(r) -> str:
     return "(Ok tt)" if r == "ok" else f"(Raise {r})"
 
 
-def c_pdc(p) -> str:
-    if isinstance(p, str):
-        return f"(Raise {p})"
+def c_pdc_raw(p) -> str:
     name, stage, specs = p
     sp = clist(f"({zstr(n)}, {clist(z(d) for d in devs)}, {clist(f'({z(a)}, {z(k)})' for a, k in dims)})"
                for n, devs, dims in specs)
-    return f"(Ok ({zstr(name)}, {copt(stage, z)}, {sp}))"
+    return f"({zstr(name)}, {copt(stage, z)}, {sp})"
+
+
+def c_pdc(p) -> str:
+    if isinstance(p, str):
+        return f"(Raise {p})"
+    return f"(Ok {c_pdc_raw(p)})"
+
+
+def c_proto(pr) -> str:
+    """None | exception name | {"cfgs": [(name, ndev)], "nodes": [(nid, [pdc])]}"""
+    if pr is None:
+        return "None"
+    if isinstance(pr, str):
+        return f"(Some (Raise {pr}))"
+    cfgs = clist(f"({zstr(n)}, {z(d)})" for n, d in pr["cfgs"])
+    nodes = clist(f"({nid}, {clist(c_pdc_raw(x) for x in ps)})" for nid, ps in pr["nodes"])
+    return f"(Some (Ok (mkMP {cfgs} {nodes})))"
 
 
 def c_op(o) -> str:
@@ -192,8 +207,9 @@ def c_obs(ob) -> str:
     errs = clist(f"({k}, {n}, {z(a)})" for k, n, a in ob["check"])
     ser = clist(f"({nid}, {clist(c_pdc(p) for p in ps)})" for nid, ps in ob["ser"])
     names = clist(f"({c_val(v)}, {zstr(nm)})" for v, nm in ob["names"])
-    return (f"(mkObs {c_res(ob['res'])} {c_nodes(ob['nodes'])} {clist(c_val(v) for v in ob['gin'])} "
-            f"{clist(c_cfg(c) for c in ob['cfgs'])} {names} {errs} {ser})")
+    nodes = "None" if ob.get("nodes_same") else f"(Some {c_nodes(ob['nodes'])})"
+    return (f"(mkObs {c_res(ob['res'])} {nodes} {clist(c_val(v) for v in ob['gin'])} "
+            f"{clist(c_cfg(c) for c in ob['cfgs'])} {names} {errs} {ser} {c_proto(ob.get('proto'))})")
 
 
 def c_state(st) -> str:
@@ -351,14 +367,14 @@ class World:
             out.append(self.parent[out[-1]])
         return out
 
-    def decl(self, scope) -> list:
+    def decl(self, scope, objs=None) -> list:
         """Values declared in a scope: its graph inputs and the outputs of its own nodes."""
         vals = []
         if scope == 0:
             vals += list(self.model.graph.inputs)
         elif scope == 1:
             vals += list(self.function().inputs)
-        for n in self.node_objs():
+        for n in (objs if objs is not None else self.node_objs()):
             if self.nscope[self.nid_of[id(n)]] == scope:
                 vals += list(n.outputs)
         return vals
@@ -462,9 +478,45 @@ class World:
                     seen.add(v[0])
                     names.append((v, self.vals[v[0]].name or ""))
         return {"res": res, "nodes": nodes, "gin": [self.vrec(v) for v in self.gin_objs()],
+                "proto": self.proto_content(),
                 "cfgs": [self.crec(c) for c in self.model.device_configurations],
                 "names": names, "check": [classify(m) for m in md._check_device_configurations(self.model)],
                 "ser": ser}
+
+    def proto_content(self):
+        """Multi-device content of ir.to_proto(model) (ModelProto.configuration and the device_configurations of
+        every NodeProto at every depth, in all_nodes order), taken whenever the model is in the round-trip domain."""
+        import onnx
+        if not self.rt_domain():
+            return None
+        try:
+            p = self.ir.to_proto(self.model)
+        except Exception as e:  # noqa: BLE001
+            return common.exn_name(e)
+        pnodes = []
+
+        def walk(ns):
+            for n in ns:
+                pnodes.append(n)
+                for a in n.attribute:
+                    if a.type == onnx.AttributeProto.GRAPH:
+                        walk(a.g.node)
+                    elif a.type == onnx.AttributeProto.GRAPHS:
+                        for g in a.graphs:
+                            walk(g.node)
+        walk(p.graph.node)
+        for f in p.functions:
+            walk(f.node)
+        objs = self.node_objs()
+        if len(objs) != len(pnodes) or any(a.name != b.name for a, b in zip(objs, pnodes)):
+            raise HarnessError("NodeProtos of to_proto do not line up with all_nodes()")
+        nodes = []
+        for n, pn in zip(objs, pnodes):
+            nodes.append((self.nid_of[id(n)], [
+                (dc.configuration_id, dc.pipeline_stage if dc.HasField("pipeline_stage") else None,
+                 [(sp.tensor_name, list(sp.device), [(d.axis, d.simple_sharding[0].num_shards) for d in sp.sharded_dim])
+                  for sp in dc.sharding_spec]) for dc in pn.device_configurations]))
+        return {"cfgs": [(c.name, c.num_devices) for c in p.configuration], "nodes": nodes}
 
     def init_state(self) -> dict:
         return {"names": [(i, v.name or "") for i, v in enumerate(self.vals)], "nodes": self.canon_nodes(),
@@ -477,17 +529,25 @@ class World:
         every input/output of every node resolves through the scope stack of its graph to itself."""
         nm = (lambda v: v.name) if names is None else (lambda v: names.get(id(v), v.name))
         bad = []
+        objs = self.node_objs()
+        cache = {s: self.decl(s, objs) for s in [0, 1] + sorted(self.parent)}
         for s in [0, 1] + sorted(self.parent):
             seen = {}
-            for v in self.decl(s):
+            for v in cache[s]:
                 if not nm(v) or (nm(v) in seen and seen[nm(v)] is not v):
                     bad.append(v)
                 else:
                     seen[nm(v)] = v
-        for n in self.node_objs():
+        def res(sc, name):
+            for s in self.chain(sc):
+                for v in cache[s]:
+                    if (nm(v) or "") == (name or ""):
+                        return v
+            return None
+        for n in objs:
             sc = self.nscope[self.nid_of[id(n)]]
             for v in _io(n):
-                if self.resolve(sc, nm(v), names) is not v:
+                if res(sc, nm(v)) is not v:
                     bad.append(v)
         return bad
 
@@ -1036,6 +1096,7 @@ def run_history(init: dict, ops, strict: bool, gen: Gen | None = None, nops: int
     w = World(init)
     st0 = w.init_state()
     steps, failures = [], []
+    last_proto = None
     canon_before = w.observe("ok")
     bad0 = oracle_state(w, strict)
     if bad0:
@@ -1065,12 +1126,27 @@ def run_history(init: dict, ops, strict: bool, gen: Gen | None = None, nops: int
             failures.append((i, [f"harness: {type(e).__name__}: {e}"]))
             steps.append((o, None))
             break
-        cb = {k: v for k, v in canon_before.items() if k not in ("res", "why")}
-        ca = {k: v for k, v in ob.items() if k not in ("res", "why")}
+        skip = ("res", "why", "proto", "nodes_same", "all_names", "names")
+        cb = {k: v for k, v in canon_before.items() if k not in skip}
+        ca = {k: v for k, v in ob.items() if k not in skip}
+        cb["names"], ca["names"] = canon_before.get("all_names", canon_before["names"]), ob["names"]
         bad = oracle_step(w, o, res, before, cb, ca, strict, invalid) + oracle_state(w, strict)
         if bad:
             failures.append((i, bad))
         ob["why"] = invalid
+        # abbreviations that keep the case files small: "nodes exactly as before the op"; names only of the values
+        # whose name differs from the previous observation (all names were checked against the initial state)
+        ob["nodes_same"] = ob["nodes"] == canon_before["nodes"]
+        prev_names = dict((v, n) for v, n in canon_before.get("all_names", canon_before["names"]))
+        ob["all_names"] = ob["names"]
+        ob["names"] = [(v, n) for v, n in ob["names"] if prev_names.get(v) != n]
+        # the to_proto stream is compared only when it carries something new (keeps the case files small)
+        pr = ob.get("proto")
+        if pr is not None and (pr == last_proto or (not isinstance(pr, str) and not pr["cfgs"]
+                                                    and not any(ps for _, ps in pr["nodes"]))):
+            ob["proto"] = None
+        else:
+            last_proto = pr if pr is not None else last_proto
         steps.append((o, ob))
         canon_before = ob
         i += 1
@@ -1228,6 +1304,10 @@ def _cover(ck, h: dict) -> None:
             ck.hist("shard_rejections", ob.get("why") or "?")
         for kind, _, _ in ob["check"]:
             ck.hist("check_messages", str(kind))
+        pr = ob.get("proto")
+        if pr is not None:
+            ck.hist("to_proto_compared", "raised" if isinstance(pr, str) else
+                    ("annotated" if any(ps for _, ps in pr["nodes"]) else "no annotations"))
     kinds = {o["op"] for o, ob in h["steps"] if ob and ob["res"] == "ok"}
     annotated = any(nd["dc"] for o, ob in h["steps"] if ob for _, nd in ob["nodes"])
     if annotated and kinds & {"replace_input", "resize_out", "resize_in", "clone", "roundtrip", "rename",
